@@ -686,3 +686,95 @@ func c07StrictHost(c *core.Ctx) {
 	}
 	c.Check(n == 1, "strict-host synthetic path", c.Pos(fn.Pos()), "", fmt.Sprintf("%d AddPath calls under StrictHost", n))
 }
+
+func init() {
+	addRule("C14", &core.Rule{ID: "C14.predicates", Floor: 5, Run: c08WatchTable,
+		Doc: "Shared with C08: the event predicates of the Ingress watcher let an update through when the old OR the new object is valid (a transition out of the class must reach the handler to be recorded as a delete), creates/deletes when the object is valid."})
+}
+
+func init() {
+	addRule("C06", &core.Rule{ID: "C06.merge-order", Floor: 2, Run: c01MergeOrder,
+		Doc: "Shared with C01: the batch merge of syncPartial removes deleted names before it inserts added ingresses, so the outcome does not depend on how the events of one batch were grouped."})
+	addRule("C06", &core.Rule{ID: "C06.shared-acquire-monotone", Floor: 2, Run: c06SharedAcquire,
+		Doc: "Objects shared by several declarations and visited in map order (the auth backend acquired by ip:port:hostname in setAuthExternal) are written order-independently: every store into the acquired object either stores a value determined by the acquire key, or is a one-way latch (a flag stored only on its own true branch)."})
+}
+
+func c06SharedAcquire(c *core.Ctx) {
+	fn := c.Fn("converters/ingress/annotations", "updater.setAuthExternal")
+	if fn == nil {
+		return
+	}
+	for _, s := range core.CallsNamed(fn, false, "(*haproxy/types.Backends).AcquireAuthBackend") {
+		call, ok := s.Instr.(*ssa.Call)
+		if !ok {
+			continue
+		}
+		keyLeaves := map[string]bool{}
+		for _, a := range s.Common().Args[1:] {
+			for l := range sliceLeaves(c.Env, a, 0) {
+				keyLeaves[l] = true
+			}
+		}
+		n := 0
+		for _, b := range fn.Blocks {
+			for _, in := range b.Instrs {
+				st, isSt := in.(*ssa.Store)
+				if !isSt {
+					continue
+				}
+				root := rootOf(st.Addr)
+				if u, isLoad := root.(*ssa.UnOp); isLoad {
+					root = u.X
+				}
+				// the acquired pointer flows through the `backend` phi
+				reaches := false
+				seen := map[ssa.Value]bool{}
+				var walk func(v ssa.Value)
+				walk = func(v ssa.Value) {
+					if seen[v] {
+						return
+					}
+					seen[v] = true
+					if v == ssa.Value(call) {
+						reaches = true
+					}
+					if ph, isPhi := v.(*ssa.Phi); isPhi {
+						for _, e := range ph.Edges {
+							walk(e)
+						}
+					}
+				}
+				walk(rootOf(st.Addr))
+				if !reaches || !call.Block().Dominates(st.Block()) {
+					continue
+				}
+				n++
+				_, f := core.FieldOf(st.Addr)
+				key := "setAuthExternal: store into the shared auth backend: " + f
+				// latch: bool value stored on its own true branch
+				latch := false
+				for _, g := range guardsOf(st) {
+					if g.Cond == st.Val && g.Branch {
+						latch = true
+					}
+				}
+				if latch || core.IsConstBool(st.Val, true) {
+					c.Held(key, at(c, st), "one-way latch")
+					continue
+				}
+				det := true
+				var extra []string
+				for l := range sliceLeaves(c.Env, st.Val, 0) {
+					if keyLeaves[l] || strings.HasPrefix(l, "const:") || strings.HasPrefix(l, "alloc:") || strings.HasPrefix(l, "call:fmt.Sprintf") || strings.HasPrefix(l, "call:") && !strings.Contains(l, "ParseURL") {
+						continue
+					}
+					det = false
+					extra = append(extra, l)
+				}
+				sort.Strings(extra)
+				c.Check(det, key, at(c, st), "value is determined by the acquire key", "the stored value depends on "+strings.Join(extra, ", ")+", which is not part of the key the object is shared by: two declarations sharing the object leave whatever the last visitor stored, and visitors come in map order")
+			}
+		}
+		c.Check(n >= 2, "setAuthExternal configures the acquired auth backend", at(c, s.Instr), "", fmt.Sprintf("%d stores into the acquired object", n))
+	}
+}
